@@ -122,6 +122,14 @@ Bytes input(Rng &rng, int level, size_t max_size, std::string *desc) {
     break;
   }
   case 12: { name = "all-256"; for (size_t i = 0; i < n; i++) b.push_back((char)(i * 37 + (i >> 8))); break; }
+  case 13: {   // runs of exactly four: the initial run-length encoding EXPANDS such data by a quarter
+    name = "four-runs";
+    unsigned char ch = (unsigned char)rng.below(256);
+    unsigned alpha = 2 + (unsigned)rng.below(200);
+    while (b.size() < n) { b.append(4, (char)(ch + rng.below(alpha) * 2 % 256)); ch++; if (rng.below(40) == 0) b.push_back((char)rng.below(256)); }
+    b.resize(n);
+    break;
+  }
   default: {   // concatenation of two or three others
     name = "concat";
     int parts = 2 + (int)rng.below(2);
